@@ -25,9 +25,9 @@ def main():
     ap.add_argument("crate")
     ap.add_argument("--seed", type=int, default=1)
     ap.add_argument("--out", required=True)
-    ap.add_argument("--runs-per-job", type=int, default=int(os.environ.get("VERIF_FUZZ_RUNS", "300000")))
+    ap.add_argument("--runs-per-job", type=int, default=int(os.environ.get("VERIF_FUZZ_RUNS", "1000000")))
     ap.add_argument("--jobs", type=int, default=16)
-    ap.add_argument("--max-total-time", type=int, default=int(os.environ.get("VERIF_FUZZ_MAX_TIME", "1500")))
+    ap.add_argument("--max-total-time", type=int, default=int(os.environ.get("VERIF_FUZZ_MAX_TIME", "900")))
     a = ap.parse_args()
     crate = a.crate.lower()
     t0 = time.time()
